@@ -38,7 +38,9 @@ CLAIMED = {
          "- for an unfiltered decoder in ANY state, every entry point, every identifier and data: the returned message has the "
          "PGN/id of the definition the database rule selects, source/destination/priority of the frame, the stored identity, and "
          "exactly spec_decode's fields (342 fixed-layout definitions), tied to the real decoder by whole-history correspondence "
-         "incl. final source map and reassembly store. PARTIAL: the database attribute Offset (23 fields) is ignored by the code (known finding) and is decided by the "
+         "incl. final source map and reassembly store; E2E_fast_packet / E2E_fast_any_entry (OblE2Efast.v): the same FRAME BY FRAME for "
+         "fast-packet PGNs (199 of the 342 fixed-layout definitions): the EByte packets of segment seq payload, from any state whose "
+         "record for the key is fresh, return nothing until the last frame and then the expected message, source map unchanged, key removed. PARTIAL: the database attribute Offset (23 fields) is ignored by the code (known finding) and is decided by the "
          "witness search; the 75 variable-layout definitions are covered by the table obligation and the correspondence only.",
          "Trusted: Coq kernel + vm_compute + native float/int63 primitives; translators tr_pgns.py/tr_db.py (cross-examined by "
          "running the real generated decoders against run_ddef on the translated tables); hand models Fields.v/PyNum.v of "
@@ -92,7 +94,7 @@ CLAIMED = {
          "DESIGN.md §5 C04"),
 
  "C06": ("Coq proof (structural induction on byte lists / token lists; arithmetic modulo 256 for the checksum) of hand models of the four encoders and four parsers + kernel-evaluated (vm_compute) correspondence with encoder.py/decoder.py on seeded frames, lines and malformed input",
-         "C06_roundtrip_ebyte/usb/yd/actisense: for EVERY canonical header and frame list (data of 0..8 bytes; lines need >= 1 byte) the encoder's packets are parsed back by the matching parser to the same (pgn, priority, source, destination, data); C06_sizes: every EByte packet has 13 bytes, every USB packet 20 bytes with checksum = byte 19, every Yacht Devices packet is one line ending in CR LF with no CR/LF inside; C06_checksum / C06_checksum_any: changing any one of bytes 2..19 of ANY accepted USB packet to ANY other value makes decode_usb reject it; C06_split: a concatenation of packets is cut back into the same packets by fixed 13-byte reads, 20-byte windows / the serial marker search, and line reads. END TO END (EncEndToEnd.v, per run tools/templates/OblEncE2E.v): ENC_E2E_ebyte / ENC_E2E_usb (120 single-frame definitions), ENC_E2E_actisense (250 of the 263 encodable definitions), ENC_E2E_fast_frames (130 fast-packet definitions): for every payload p the decoder accepts and every canonical header, the packets the composed ENCODER model emits for the decoded message (function lookup by PGN/id, generated encoder, fast-packet segmentation with the 3-bit counter, wire format), given to the composed DECODER model, return the message with the same PGN, id, addressing, priority and ALL the same fields: decode(encode(decode p)) = decode p; the encoder model is tied to the real NMEA2000Encoder by call-by-call correspondence of message sequences incl. refusals.",
+         "C06_roundtrip_ebyte/usb/yd/actisense: for EVERY canonical header and frame list (data of 0..8 bytes; lines need >= 1 byte) the encoder's packets are parsed back by the matching parser to the same (pgn, priority, source, destination, data); C06_sizes: every EByte packet has 13 bytes, every USB packet 20 bytes with checksum = byte 19, every Yacht Devices packet is one line ending in CR LF with no CR/LF inside; C06_checksum / C06_checksum_any: changing any one of bytes 2..19 of ANY accepted USB packet to ANY other value makes decode_usb reject it; C06_split: a concatenation of packets is cut back into the same packets by fixed 13-byte reads, 20-byte windows / the serial marker search, and line reads. END TO END (EncEndToEnd.v, per run tools/templates/OblEncE2E.v): ENC_E2E_ebyte / ENC_E2E_usb (120 single-frame definitions), ENC_E2E_actisense (250 of the 263 encodable definitions), ENC_E2E_fast_frames (130 fast-packet definitions): for every payload p the decoder accepts and every canonical header, the packets the composed ENCODER model emits for the decoded message (function lookup by PGN/id, generated encoder, fast-packet segmentation with the 3-bit counter, wire format), given to the composed DECODER model, return the message with the same PGN, id, addressing, priority and ALL the same fields: decode(encode(decode p)) = decode p; the encoder model is tied to the real NMEA2000Encoder by call-by-call correspondence of message sequences incl. refusals; E2E_fast_roundtrip_ebyte / _usb (OblE2EfastEnc.v): for 130 fast-packet definitions the encoder's packets fed frame by frame to the composed decoder (control-layer reassembly) return the message at the last frame.",
          None, "DESIGN.md §5 C06"),
  "C07": ("Coq proof (one theorem over all renderings of a frame in the five input grammars, by induction on token lists) of hand models of the five front-ends down to the argument tuple handed to _decode + kernel-evaluated correspondence of every front-end with the real parsers",
          "C07_frontends: for EVERY 29-bit identifier and data bytes, every EByte packet (any flag bits, any padding), every USB packet (any type/reserved bytes, padding), every canboat line (either time-stamp form, any decimal spelling, hex tokens in any case, extra tokens), every Yacht Devices line (R/T, any hex case, leading zeros, trailing whitespace) and every Actisense line carrying that frame hands _decode the SAME tuple (pgn, priority, source, destination, reversed data) — so everything behind _decode is identical; C07_assembled: frame-by-frame delivery through any mix of the three frame-level formats reassembles (for any segmenter/reassembler pair that is inverse, instantiated by C03) to exactly what the pre-assembled formats hand over in one call; C07_assembled_fastpacket: the same with the library's own segmenter and reassembler (C03) and no abstract hypothesis left. END TO END (OblE2E.v, per run): E2E_all_formats - for every rendering of a frame in the five grammars an unfiltered decoder in any state returns the SAME message (PGN/id selected by the database rule, addressing, identity, spec_decode's fields), with whole-history correspondence of the composed model against the real decoder through all five entry points.",
